@@ -137,6 +137,17 @@ pub fn plan<'a>(ctx: &'a Ctx, rng: &mut Rng, tier: Tier) -> Plan<'a> {
             for a in gen::CASE {
                 pool.push(vec![a.to_string()]);
             }
+            // case variants around metacharacters
+            let mwords = gen::words(gen::CASE_META, 3);
+            pool.extend(gen::sample_subsets(rng, &mwords, 2, n / 2));
+            pool.extend((0..n / 4).map(|_| gen::random_list(rng, gen::CASE_META)));
+            for a in ["A", "B", "\u{a7dc}", "\u{130}", "K"] {
+                for m in ["?", "+", "(", ")", "|", ".", "|.", "*", "[", "{2}", "^", "$"] {
+                    pool.push(vec![format!("{}{}", a, m)]);
+                    pool.push(vec![format!("{}{}", a, m), format!("{}{}", a.to_lowercase(), m)]);
+                    pool.push(vec![format!("{}{}", m, a)]);
+                }
+            }
             let flags: Vec<u32> = [0u32, mask(&[BIT_VERB]), mask(&[BIT_ESC]), mask(&[BIT_CAP]), mask(&[BIT_WORD]), mask(&[BIT_DIGIT, BIT_NON_WORD])].iter().map(|f| f | (1 << BIT_CI)).collect();
             let mut cases = vec![];
             for (k, t) in pool.into_iter().enumerate() {
